@@ -61,7 +61,7 @@ var checks = map[string]checkSpec{
 		Rule: "Random static cluster states (1-4 brokers, topics/partitions spread over leaders, log start offsets from 0 to beyond 2^33, record timestamps, committed offsets per group) queried through Conn (ReadOffsets, ReadOffset(time), Seek in every whence mode with and without SeekDontCheck, ReadPartitions) and Client (ListOffsets spanning many topics/partitions/leaders with mixed first/last/time requests, OffsetFetch, ConsumerOffsets, OffsetCommit, Metadata) by 1-3 goroutines, with per-partition error codes and an unreachable leader for a subset; every returned value is compared with the model and an injected failure must appear on its partition only. ListOffsets asks 1-3 look-ups of distinct kinds per partition; failures can be confined to one kind of look-up, and the partition's entry must then carry the error.",
 	},
 	"C18": {
-		Scenarios: []scnSpec{{Name: "sasl", Share: 1}},
+		Scenarios: []scnSpec{{Name: "sasl", Share: 0.9}, {Name: "saslraw", Share: 0.1, CountKey: "saslraw"}},
 		Quick:     30 * time.Second, Thorough: 8 * time.Minute, Level: "exploration",
 		Rule: "PLAIN, SCRAM-SHA-256 and SCRAM-SHA-512 with user names and passwords that need escaping or SASLprep, handshake v0 (raw tokens) and v1 (SaslAuthenticate frames), through Dialer->Conn and through a Transport shared by several goroutines; healthy exchanges and every failure placement (wrong password, unknown user, mechanism not enabled, error code in SaslAuthenticate, malformed server-first / server-final message, connection closed after the handshake or mid-exchange). The broker model reports any non-authentication request that arrives before its hand-written reference server (RFC 4616 / RFC 5802) accepted the exchange; dialling must succeed exactly when that server accepted, and a failed connection must be closed.",
 	},
@@ -86,9 +86,9 @@ var checks = map[string]checkSpec{
 		Rule: "Consume: partitions pre-loaded with generated physical layouts (uncompressed format 0, formats 1 and 2 with every codec, v1 wrappers with dense and gapped relative inner offsets, compaction holes, headers, control batches, fetch versions 2..11 with down-conversion) are fetched concurrently through Client.Fetch and Conn.ReadBatch; the oracle is the independent decoder run over the very bytes the broker model sent: same records, offsets, null-vs-empty keys/values, headers, millisecond timestamps; control batches hidden by Client.Fetch; key/value bytes of records held back while other responses are decoded must still be intact when finally read; a fault flips one byte inside the checksummed part of one batch and no record of that batch may surface. Produce: Conn.WriteMessages / WriteCompressedMessages, Client.Produce and (writer scenario, fault-free and with broker error codes that make the Writer retry) Writer with nil/empty keys and values, headers and sub-millisecond timestamps; every request is strictly decoded by the broker model (lengths, CRC, counts, offset deltas) and the decoded records are compared with what was submitted. One produce call in six carries 600-2500 records (several 64 KiB pages, size/checksum placeholders patched across page boundaries).",
 	},
 	"C04": {
-		Scenarios: []scnSpec{{Name: "fields", Share: 0.5}, {Name: "fields", Flavour: "unsafe", Share: 0.25}, {Name: "connerr", Share: 0.1}, {Name: "queries", Share: 0.15}},
+		Scenarios: []scnSpec{{Name: "fields", Share: 0.45}, {Name: "fields", Flavour: "unsafe", Share: 0.2}, {Name: "connerr", Share: 0.1}, {Name: "queries", Share: 0.1}, {Name: "records", Share: 0.15}},
 		Quick:     40 * time.Second, Thorough: 10 * time.Minute, Level: "exploration",
-		Rule: "fields: for every API that both kafka-go and the reference codec implement, a protocol.Conn over the simulated network negotiates versions against randomised broker ranges (ApiVersions + SelectVersion, as Transport does) and sends a request filled with generated values (boundary integers, empty/long/non-ASCII strings, nil/empty/non-empty blobs and arrays, nested arrays); the broker model strictly decodes it (size prefix, header, version within the advertised range, client id, canonical body) and the decoded values are compared by Kafka field *name* with the values the caller set; it answers with a generated response for that version plus unknown top-level tagged fields in flexible versions, which the library must decode to exactly those values and consume as exactly one frame (a further exchange on the connection must succeed); run against the default build of the protocol package and against its `unsafe` build (-tags unsafe). The same always-on monitor decodes every request of every other scenario (Conn's hand-written codec in connerr/queries, Transport in all others).",
+		Rule: "fields: for every API that both kafka-go and the reference codec implement, a protocol.Conn over the simulated network negotiates versions against randomised broker ranges (ApiVersions + SelectVersion, as Transport does) and sends a request filled with generated values (boundary integers, empty/long/non-ASCII strings, nil/empty/non-empty blobs and arrays, nested arrays); the broker model strictly decodes it (size prefix, header, version within the advertised range, client id, canonical body) and the decoded values are compared by Kafka field *name* with the values the caller set; it answers with a generated response for that version plus unknown top-level tagged fields in flexible versions, which the library must decode to exactly those values and consume as exactly one frame (a further exchange on the connection must succeed); run against the default build of the protocol package and against its `unsafe` build (-tags unsafe). The same always-on monitor decodes every request of every other scenario (Conn's hand-written codec in connerr/queries, Transport in all others); records adds the produce paths of Conn and Client with compression, several producers at a time on connections of their own (pooled scratch buffers under contention) and requests larger than the write buffer. protocol.Unmarshal(Marshal(v)) is compared before and after failed decodes on the same goroutine (R5).",
 	},
 	"C10": {
 		Scenarios: []scnSpec{{Name: "racemix", Flavour: "race", Share: 1}},
